@@ -177,8 +177,53 @@ def run_cli_shard(d):
                 if tuple(g) != (en, es, eq):
                     V.append(("cli:record", "command-line output differs from the stated rules", dict(cfg, read=s, got=list(g), expected=[en, es, eq])))
                     break
+    if d["part"] == 0:
+        _file_spec_scenarios(wd, res)
     clih.rmtree(wd)
     return res
+
+
+def _file_spec_scenarios(wd, res):
+    """Adapters from a FASTA file with file-level parameters next to adapters given directly: the rules are applied to each
+    adapter with ITS OWN configured parameters (reference adapters are built with the class constructors, not the parser)."""
+    from cutadapt.adapters import BackAdapter
+
+    V = res["viol"]
+    SHORT, LONG = "GGTTCAAG", "CCTGAGGTTCAAGTC"
+    fa = os.path.join(wd, "ads.fa")
+    clih.write_text(fa, f">short\n{SHORT}\n")
+    ins = ["ACGTTGCATG", "TTGACCA", ""]
+    reads = []
+    for i in ins:
+        reads += [i + LONG, i + "CCTGAGGTTGAAGTC", i + "CATGAGGTTCAAGTC" + "TT", i + SHORT, i + SHORT[:5], i + LONG[:9], i + "CCTGTGGTTCAAG", i + SHORT + LONG, i]
+    recs = [(f"f{k}", s_, uq(len(s_))) for k, s_ in enumerate(reads)]
+    inp, out = os.path.join(wd, "fs.fq"), os.path.join(wd, "fs.out.fq")
+    clih.write_text(inp, clih.fastq_text(recs))
+    for fe, fo in ((0.0, 8), (0.3, 2)):
+        mk_short = lambda: BackAdapter(SHORT, max_errors=fe, min_overlap=fo, name="short")
+        mk_long = lambda: BackAdapter(LONG, max_errors=0.1, min_overlap=3, name="long")
+        for label, order, ads in (("file first", ["-a", f"file:{fa};e={fe};o={fo}", "-a", f"long={LONG}"], [mk_short(), mk_long()]),
+                                  ("file last", ["-a", f"long={LONG}", "-a", f"file:{fa};e={fe};o={fo}"], [mk_long(), mk_short()])):
+            for times in (1, 2):
+                argv = ["--no-index", "-e", "0.1", "-O", "3", "--times", str(times), "--rename", "{id} {adapter_name}"] + order + ["-o", out, inp]
+                r = clih.run_cli(argv)
+                res["cli_runs"] += 1
+                cfg = dict(argv=[a if not a.startswith("/") else os.path.basename(a) for a in argv], seam="cli-file", times=times)
+                if r.exit != 0:
+                    V.append(("cli:failed", f"cutadapt failed: {r.exit} {r.exc} {r.errors()[:1]}", cfg))
+                    continue
+                got = clih.read_records(out)[1]
+                for (nm, s_, q), g in zip(recs, got):
+                    res["evals"] += 1
+                    matches, kept = refpipe.adapter_rounds(ads, s_, times)
+                    es, eq = refpipe.apply_action(s_, q, matches, kept, "trim")
+                    en = f"{nm} {matches[-1].name if matches else 'no_adapter'}"
+                    if matches:
+                        res["nontrivial"] += 1
+                    if tuple(g) != (en, es, eq):
+                        V.append(("cli:file-spec", f"with an adapter file carrying its own parameters ({label}) the applied adapter / trimmed read "
+                                  "is not the one the stated rules give for the configured parameters", dict(cfg, read=s_, got=list(g), expected=[en, es, eq])))
+                        break
 
 
 def run(tier):
@@ -217,6 +262,9 @@ def replay(path):
         v = json.load(f)
     print(json.dumps(v, indent=1))
     c = v["case"]
+    if "types" not in c:
+        import sys
+        return common.replay_by_rerun(sys.modules[__name__], PROP, path)
     specs = list(zip(c["types"], c["adapters"]))
     ads = make(specs)
     act = None if c["action"] == "none" else c["action"]
